@@ -44,7 +44,8 @@ pub fn judge(ctx: &Ctx, l: &mut Local, p: &Params, site: Site, date: NaiveDate) 
                 match (r[&pr], r2[&pr]) {
                     (Ok(a), Ok(b)) => {
                         let d = cyc(b.time.signed_duration_since(a.time).num_seconds());
-                        let want = if moves { cyc((m * 60.0) as i64) } else { 0 };
+                        // the perturbation SETS the offset: relative to a base that already has one it moves by the difference
+                        let want = if moves { cyc(((m - p.minutes[&key]) * 60.0).round() as i64) } else { 0 };
                         let tol = if moves { 1 } else { 0 };
                         if cyc(d - want).abs() > tol || a.extreme != b.extreme {
                             viol("minute_offset_shifts_exactly_its_prayer", &q, None, what.clone(), &r2);
@@ -65,7 +66,9 @@ pub fn judge(ctx: &Ctx, l: &mut Local, p: &Params, site: Site, date: NaiveDate) 
         let what = json!({"intervals": {"Isha": i}});
         match (secs(&r2, Maghrib), secs(&r2, Isha)) {
             (Some(m), Some(s)) => {
-                if cyc(s - m - (i * 60.0) as i64).abs() > 1 {
+                // offsets shift exactly their own prayer: the interval relates the times net of their offsets
+                let net = ((p.minutes[&Isha] - p.minutes[&Maghrib]) * 60.0).round() as i64;
+                if cyc(s - m - net - (i * 60.0) as i64).abs() > 1 {
                     viol("isha_interval_is_maghrib_plus_interval", &q, None, what.clone(), &r2);
                 }
             }
@@ -82,7 +85,8 @@ pub fn judge(ctx: &Ctx, l: &mut Local, p: &Params, site: Site, date: NaiveDate) 
         let what = json!({"intervals": {"Fajr": i}});
         match (secs(&r2, Shurooq), secs(&r2, Fajr)) {
             (Some(s), Some(f)) => {
-                if cyc(s - f - (i * 60.0) as i64).abs() > 1 {
+                let net = ((p.minutes[&Shurooq] - p.minutes[&Fajr]) * 60.0).round() as i64;
+                if cyc(s - f - net - (i * 60.0) as i64).abs() > 1 {
                     viol("fajr_interval_is_shurooq_minus_interval", &q, None, what.clone(), &r2);
                 }
             }
@@ -115,7 +119,9 @@ pub fn judge(ctx: &Ctx, l: &mut Local, p: &Params, site: Site, date: NaiveDate) 
     if let Ok(f) = r[&Fajr] {
         if f.extreme {
             l.count("extreme_fajr_cases", 1);
-            let ok = matches!(r[&Imsaak], Ok(im) if im.extreme && cyc(f.time.signed_duration_since(im.time).num_seconds() - 90).abs() <= 1);
+            // (an Imsaak interval, where configured, stays the definition: Fajr - interval)
+            let gap = if p.intervals[&Imsaak] != 0.0 { (p.intervals[&Imsaak] * 60.0).round() as i64 } else { 90 };
+            let ok = matches!(r[&Imsaak], Ok(im) if im.extreme && cyc(f.time.signed_duration_since(im.time).num_seconds() - gap).abs() <= 1);
             if !ok {
                 viol("extreme_fajr_gives_imsaak_90s_before_and_extreme", p, None, json!("none"), &r);
             }
@@ -204,10 +210,63 @@ pub fn explore(ctx: &Ctx) {
             judge(ctx, l, p, *site, d);
         }
     });
+    // deviation bound 2: the same single-parameter perturbations from bases that already deviate from the
+    // method defaults in one parameter (two cooperating parameters: Fajr interval x Imsaak interval,
+    // Imsaak interval x Fajr offset, ...)
+    type Devn = (&'static str, fn(&mut Params));
+    let devs: Vec<Devn> = vec![
+        ("fajr_interval_81.25", |p| {
+            p.intervals.insert(Prayer::Fajr, 81.25);
+        }),
+        ("isha_interval_75", |p| {
+            p.intervals.insert(Prayer::Isha, 75.0);
+        }),
+        ("imsaak_interval_12.25", |p| {
+            p.intervals.insert(Prayer::Imsaak, 12.25);
+        }),
+        ("fajr_offset_-17.25", |p| {
+            p.minutes.insert(Prayer::Fajr, -17.25);
+        }),
+        ("isha_offset_9", |p| {
+            p.minutes.insert(Prayer::Isha, 9.0);
+        }),
+        ("maghrib_offset_3", |p| {
+            p.minutes.insert(Prayer::Maghrib, 3.0);
+        }),
+        ("shurooq_offset_-2.5", |p| {
+            p.minutes.insert(Prayer::Shurooq, -2.5);
+        }),
+        ("imsaak_angle_2.2", |p| {
+            p.angles.insert(Prayer::Imsaak, 2.2);
+        }),
+        ("fajr_angle_13.7", |p| {
+            p.angles.insert(Prayer::Fajr, 13.7);
+        }),
+    ];
+    let dates2: Vec<NaiveDate> = dates_of_years(&[2024]).into_iter().step_by(if quick { 15 } else { 3 }).collect();
+    let mut jobs2 = vec![];
+    for &lat in &[21.4, -39.0, 47.3, 56.0] {
+        for m in [Method::Mwl, Method::UmmAlQurra, Method::Isna] {
+            for pol in [ExtremeLatitudeMethod::None, ExtremeLatitudeMethod::NearestGoodDayFajrIshaInvalid] {
+                for (name, f) in &devs {
+                    let mut p = params(m, pol, RoundSeconds::None);
+                    f(&mut p);
+                    jobs2.push((Site::new(lat, 39.8233, 0.0, 3.0), p, *name));
+                }
+            }
+        }
+    }
+    ctx.alphabet("deviating_bases", json!({"deviations": devs.iter().map(|d| d.0).collect::<Vec<_>>(), "lats": [21.4, -39.0, 47.3, 56.0], "methods": ["Mwl", "UmmAlQurra", "Isna"], "policies": ["None", "default"], "dates": dates2.len()}));
+    par_jobs(ctx, &jobs2, |(site, p, _name), l| {
+        for &d in &dates2 {
+            judge(ctx, l, p, *site, d);
+        }
+        l.count("cases_from_deviating_bases", dates2.len() as u64);
+    });
 }
 
 pub fn replay(ctx: &Ctx, _clause: &str, case: &Value) {
-    let c: PtCase = serde_json::from_value(case.clone()).expect("case");
+    let c: PtCase = serde_json::from_value::<PtCase>(case.clone()).map(PtCase::fix).expect("case");
     let mut l = Local::default();
     let base: Params = serde_json::from_value(c.extra["base_params"].clone()).unwrap_or(c.params.clone());
     judge(ctx, &mut l, &base, c.site, c.date);
